@@ -63,6 +63,16 @@ def evaluate(P, cases, tier):
             stats['dist'][k] = stats['dist'].get(k, 0) + 1
         if info.get('nontrivial'):
             nontrivial.add(hashlib.sha1(sexp.dump(c[2:]).encode()).hexdigest())
+    if hasattr(P, 'judge_all'):
+        # properties that relate several runs (C09, C19, C20): second phase with access to everything
+        fs2, info2, extra = P.judge_all(cases, impl, model, tier)
+        findings += fs2
+        for k in info2.get('dist', []):
+            stats['dist'][k] = stats['dist'].get(k, 0) + 1
+        for h in info2.get('nontrivial_hashes', []):
+            nontrivial.add(h)
+        stats['compared'] += info2.get('compared', 0)
+        cases.extend(extra)          # so that replays / shrinking can find them by id
     stats['distinct_nontrivial'] = len(nontrivial)
     return findings, stats, impl, model
 
